@@ -43,17 +43,27 @@ func verifReady(cases ...bool) bool {
 }
 
 // VerifPick is asked to resolve an awaited select of which n > 1 cases are
-// ready (the Go runtime would pick one at random); it returns the index of the
-// ready case to take, so that the harness owns the choice.
+// ready (the Go runtime picks one at random); it returns the index of the
+// ready case the harness wants this execution to take.
 var VerifPick func(site string, n int) int
 
-// verifPick returns the 1-based index of the case the harness resolved the
-// select to, or 0 if fewer than two cases are ready or no harness is installed.
-func verifPick(site string, cases ...bool) int {
+// VerifWrongBranch is called when the runtime took another ready case than
+// the harness asked for; the harness then discards and repeats the execution.
+// The select itself is never altered.
+var VerifWrongBranch func(site string)
+
+// verifDesired is the 1-based index of the case the harness asked for at the
+// last verifPick (0: no preference). Only touched while a harness is
+// installed, i.e. while exactly one goroutine runs at a time.
+var verifDesired int
+
+// verifPick announces the ready cases of the select that follows.
+func verifPick(site string, cases ...bool) {
 	f := VerifPick
 	if f == nil {
-		return 0
+		return
 	}
+	verifDesired = 0
 	var ready []int
 	for i, c := range cases {
 		if c {
@@ -61,7 +71,20 @@ func verifPick(site string, cases ...bool) int {
 		}
 	}
 	if len(ready) < 2 {
-		return 0
+		return
 	}
-	return ready[f(site, len(ready))]
+	verifDesired = ready[f(site, len(ready))]
+}
+
+// verifTook reports which case of the select was taken.
+func verifTook(site string, n int) {
+	f := VerifWrongBranch
+	if f == nil {
+		return
+	}
+	d := verifDesired
+	verifDesired = 0
+	if d != 0 && d != n {
+		f(site)
+	}
 }
